@@ -1633,6 +1633,18 @@ def _adaptor_item_facts(u, fn):
     if len(uses) != 1:
         return []
     name, args = uses[0]
+    nn = mir.norm(name)
+    if nn in ("std::option::Option::map", "std::option::Option::and_then", "std::option::Option::is_some_and", "std::option::Option::filter", "std::option::Option::map_or") \
+            and b["locals"][2]["ty"] in INT_RANGE and args[0][0] in ("call", "proj"):
+        # the closure sees exactly the `Some` payload of the receiver (std contract of these Option adaptors)
+        payload = ("proj", ("proj", args[0], "as Some"), "0")
+        try:
+            iv = Ctx(pb, u).interval(payload)
+        except Exception:
+            iv = None
+        if iv is not None and iv[0] is not None and iv[1] is not None:
+            return [("lo", 2, iv[0]), ("hi", 2, iv[1])]
+        return []
     if not (mir.norm(name).startswith("std::iter::Iterator::") and mir.norm(name).split("::")[-1] in ITEM_CONSUMERS and len(args) == 2):
         return []
     recv = args[0]
